@@ -287,7 +287,8 @@ pub fn run(tier: Tier, shard: Shard, rep: &mut Report) {
         participant x 2-3 operation programs under iterative preemption bounding (all schedules with <= 2 preemptions; thorough: every \
         2 x <=2-op program and every 3 x 1-op triple at bound 2, curated at bound 3); every sequential history of <= 3 operations from \
         {set, put, get, touch, ensure, set_temp_file, put_temp_file} and five writer/reader programs again with values of 0 B and 3 x 8 KiB and \
-        with handles built with auto_sync(false) (neither may change an answer). Each execution's call/return history (stamped in \
+        with handles built with auto_sync(false) (neither may change an answer); set/put of values staged in the cache's own temp_dir(), a minute \
+        or two hours old, with the write's maintenance firing or not: an acknowledged write is what a later get reads, a failed one changed nothing. Each execution's call/return history (stamped in \
         scheduler steps; ensure decomposed into lookup / put / lookup) is checked by Wing-Gong search against the register-with-put \
         specification. Non-trivial = execution with at least one preemption; outcomes = distinct (results, final contents)."
         .into();
@@ -318,9 +319,144 @@ pub fn run(tier: Tier, shard: Shard, rep: &mut Report) {
             rep.violation(format!("history:{}", sig), format!("program {} [sequential]: {}", prog.name, msg), e1::case_json(&prog, &[]));
         }
     }
+    crate::run::reset_env();
+    staged_source_section(shard, rep);
+}
+
+/// Values staged in the cache's own temporary directory (the documented workflow), young or already older than the
+/// age limit (a file renamed in, extracted from an archive, written under a skewed clock), with the write's own
+/// maintenance firing or not: an acknowledged write took effect; a failed one changed nothing.
+fn staged_source_section(shard: Shard, rep: &mut Report) {
+    use crate::world::Scratch;
+    let mut no = 0u64;
+    for sharded in [false, true] {
+        for present in [false, true] {
+            for set in [true, false] {
+                for fire in [false, true] {
+                    for stale in [false, true] {
+                        no += 1;
+                        if !shard.mine(no) {
+                            continue;
+                        }
+                        crate::run::reset_env();
+                        let sc = Scratch::new();
+                        let dir = sc.path("cache");
+                        let key = crate::ops::key_for_shards("k", 0, 1, 2);
+                        let now = crate::run::base_time_ns() as i128;
+                        let old = now - 86_400_000_000_000;
+                        let home = if sharded { dir.join(crate::ops::shard_dir_name(0)) } else { dir.clone() };
+                        crate::shim::passthrough(|| std::fs::create_dir_all(&home).unwrap());
+                        if present {
+                            world::plant(&home.join("k"), &v0().bytes(), 0o444, old - 120_000_000_000, old);
+                        }
+                        let newv = Val::one(7);
+                        enum H {
+                            P(kismet_cache::plain::Cache),
+                            S(kismet_cache::sharded::Cache),
+                        }
+                        let mk = || if sharded { H::S(kismet_cache::sharded::Cache::new(dir.clone(), 2, 20)) } else { H::P(kismet_cache::plain::Cache::new(dir.clone(), 10)) };
+                        let h = mk();
+                        let age = if stale { 7_200_000_000_000i128 } else { 60_000_000_000 };
+                        let (r, t) = crate::run::as_participant(0, 0, || -> std::io::Result<()> {
+                            if fire {
+                                crate::run::trigger_fire_next(u64::MAX);
+                            } else {
+                                crate::run::trigger_never();
+                            }
+                            let tmp = match &h {
+                                H::P(c) => c.temp_dir()?.into_owned(),
+                                H::S(c) => c.temp_dir(Some(key.key()))?.into_owned(),
+                            };
+                            let src = tmp.join("staged-value");
+                            std::fs::write(&src, newv.bytes())?;
+                            crate::shim::passthrough(|| world::set_times(&src, now - age, now - age));
+                            // (staging consumed whatever the trigger had in store: the write itself fires or not as asked)
+                            if fire {
+                                crate::run::trigger_fire_next(u64::MAX);
+                            }
+                            match (&h, set) {
+                                (H::P(c), true) => c.set("k", &src),
+                                (H::P(c), false) => c.put("k", &src),
+                                (H::S(c), true) => c.set(key.key(), &src),
+                                (H::S(c), false) => c.put(key.key(), &src),
+                            }
+                        });
+                        rep.evaluations += 1;
+                        rep.states += 1;
+                        rep.traces += 1;
+                        rep.transitions += t.len() as u64;
+                        rep.count("staged_source_cases", 1);
+                        let label = format!(
+                            "{} {} of a value staged in temp_dir() ({}), key {}, maintenance {}",
+                            if sharded { "sharded" } else { "plain" },
+                            if set { "set" } else { "put" },
+                            if stale { "two hours old" } else { "a minute old" },
+                            if present { "present" } else { "absent" },
+                            if fire { "firing" } else { "not firing" }
+                        );
+                        let acked = match r {
+                            Ok(Ok(())) => true,
+                            Ok(Err(_)) => false,
+                            Err(p) => {
+                                rep.violation("history:panic", format!("{}: panicked: {}", label, p), serde_json::json!({"staged_source_section": true}));
+                                continue;
+                            }
+                        };
+                        let reader = mk();
+                        let (got, _t) = crate::run::as_participant(1, 0, || {
+                            crate::run::trigger_never();
+                            let f = match &reader {
+                                H::P(c) => c.get("k"),
+                                H::S(c) => c.get(key.key()),
+                            };
+                            f.map(|o| {
+                                o.map(|mut f| {
+                                    let mut b = Vec::new();
+                                    let _ = std::io::Read::read_to_end(&mut f, &mut b);
+                                    b
+                                })
+                            })
+                        });
+                        let got = match got {
+                            Ok(Ok(g)) => g,
+                            other => {
+                                rep.violation("history:op-failed", format!("{}: the later get failed: {:?}", label, other.map(|r| r.map(|_| ()))), serde_json::json!({"staged_source_section": true}));
+                                continue;
+                            }
+                        };
+                        let before = if present { Some(v0().bytes()) } else { None };
+                        let want = if !acked {
+                            before.clone()
+                        } else if set {
+                            Some(newv.bytes())
+                        } else {
+                            before.clone().or(Some(newv.bytes()))
+                        };
+                        if got != want {
+                            rep.violation(
+                                "history:ack-without-effect",
+                                format!(
+                                    "{}: the write {} and a later get reads {:?}, expected {:?}",
+                                    label,
+                                    if acked { "was acknowledged" } else { "failed" },
+                                    got.as_ref().map(|b| world::describe_bytes(b)),
+                                    want.as_ref().map(|b| world::describe_bytes(b))
+                                ),
+                                serde_json::json!({"staged_source_section": true}),
+                            );
+                        }
+                    }
+                }
+            }
+        }
+    }
 }
 
 pub fn replay(case: &Value, rep: &mut Report) {
+    if case.get("staged_source_section").is_some() {
+        staged_source_section(Shard { index: 0, count: 1 }, rep);
+        return;
+    }
     crate::sched::install_hooks();
     let mut all = programs(Tier::Thorough);
     all.extend(seq_programs(Tier::Thorough).into_iter().map(|(p, present)| (p, Mode::Bounded(0), present)));
